@@ -14,12 +14,15 @@
     (C01_every_interleaving on joint micro-steps, C01_every_schedule on user-level calls,
     C01_process_is_joint_steps relating the two): as long as neither side has reported an error, what
     one side delivered is a prefix of what the other accepted - same bytes, same order, none twice, none
-    invented - in both directions at once, and at rest it is everything.  That no error is reported
-    when both sides are processed in time is proved for the lock-step schedule (C01_lockstep) and
-    explored for the others by the two-peer correspondence campaign (harness/props/C01.py). *)
+    invented - in both directions at once, and at rest it is everything.  And with non-reserved STmin
+    parameters (C01_only_deadline_errors, C01_only_deadline_errors_schedule): unless a DEADLINE error
+    (FlowControlTimeoutError, ConsecutiveFrameTimeoutError) has been reported, no error has been reported
+    at all - by the flow-control credit invariant of Proofs/TokenP.v: a Flow Control only ever reaches a
+    sender that is waiting for it.  What remains outside the theorems is the timing itself: that the
+    deadlines are met when both sides are processed regularly (explored by harness/props/C01.py). *)
 From IsoTp Require Import Base.Prelude Model.Layer Model.Address Spec.ConfigSpec Spec.Stream Spec.Segment
   Proofs.RxP Proofs.SegP Proofs.FaultP Proofs.TransferP Proofs.TxP Proofs.CoopP Proofs.FcPosP
-  Model.Micro Model.Joint Proofs.Inv Proofs.SendTraceP Proofs.WireP Proofs.JointP Proofs.JointProcP.
+  Model.Micro Model.Joint Model.Pdu Proofs.Inv Proofs.SendTraceP Proofs.WireP Proofs.JointP Proofs.JointProcP Proofs.TokenP.
 
 Theorem C01_segmentation_wellformed : forall c, params_ok (c_p c) -> forall t payload,
   1 <= zlen payload < 2 ^ 32 ->
@@ -151,6 +154,45 @@ Theorem C01_every_schedule : forall ca cb, params_ok (c_p ca) -> params_ok (c_p 
                  sent_of SB tr = recv_of SA tr ++ rx_queue (nA n))).
 Proof. exact calls_transfer. Qed.
 
+
+(** The flow-control credit argument, every interleaving.  Two linked layers with accepted parameters and
+    non-reserved STmin bytes.  For EVERY list of joint steps from the initial state: either a deadline error
+    (N_Bs: FlowControlTimeoutError, N_Cr: ConsecutiveFrameTimeoutError) has been reported on one side, or NO
+    error event at all has been reported - no unexpected / overflow / wait Flow Control, no wrong sequence
+    number, no unexpected or interrupted frame, no invalid data, no generator error, no escaped exception -
+    and what each side delivered is a prefix of what the other accepted, everything at rest.  Invariant
+    (Proofs/ScanP.v, TokRxP.v, TokTxP.v, TokenP.v): the receiver has issued one ContinueToSend per
+    flow-control point of the data frames it consumed; the sender waits exactly while the frames it emitted
+    contain a point it holds no grant for; accepted + pending + in flight + in the mailbox <= issued. *)
+Theorem C01_only_deadline_errors : forall ca cb, params_ok (c_p ca) -> params_ok (c_p cb) ->
+  linked ca cb -> linked cb ca ->
+  stmin_valid (p_stmin (c_p ca)) = true -> stmin_valid (p_stmin (c_p cb)) = true ->
+  forall ta tb ops, Forall (jop_ok ca cb) ops ->
+  let n := fst (jrun ca cb (init_net ca cb ta tb) ops) in
+  let tr := snd (jrun ca cb (init_net ca cb ta tb) ops) in
+  jto tr = true \/
+  (jerr tr = false /\
+   (exists later, sent_of SA tr = (recv_of SB tr ++ rx_queue (nB n)) ++ later) /\
+   (exists later, sent_of SB tr = (recv_of SA tr ++ rx_queue (nA n)) ++ later) /\
+   (at_rest n -> sent_of SA tr = recv_of SB tr ++ rx_queue (nB n) /\
+                 sent_of SB tr = recv_of SA tr ++ rx_queue (nA n))).
+Proof. exact joint_only_deadlines. Qed.
+
+(** The same for every schedule of user-level calls (process() with any flags, send(), recv(), ticks). *)
+Theorem C01_only_deadline_errors_schedule : forall ca cb, params_ok (c_p ca) -> params_ok (c_p cb) ->
+  linked ca cb -> linked cb ca ->
+  forall ta tb cls,
+  stmin_valid (p_stmin (c_p ca)) = true -> stmin_valid (p_stmin (c_p cb)) = true -> Forall (call_ok ca cb) cls ->
+  let n := fst (crun ca cb (init_net ca cb ta tb) cls) in
+  let tr := snd (crun ca cb (init_net ca cb ta tb) cls) in
+  jto tr = true \/
+  (jerr tr = false /\
+   (exists later, sent_of SA tr = (recv_of SB tr ++ rx_queue (nB n)) ++ later) /\
+   (exists later, sent_of SB tr = (recv_of SA tr ++ rx_queue (nA n)) ++ later) /\
+   (at_rest n -> sent_of SA tr = recv_of SB tr ++ rx_queue (nB n) /\
+                 sent_of SB tr = recv_of SA tr ++ rx_queue (nA n))).
+Proof. exact calls_only_deadlines. Qed.
+
 Print Assumptions C01_segmentation_wellformed.
 Print Assumptions C01_messages.
 Print Assumptions C01_transfer.
@@ -160,3 +202,5 @@ Print Assumptions C01_lockstep.
 Print Assumptions C01_every_interleaving.
 Print Assumptions C01_process_is_joint_steps.
 Print Assumptions C01_every_schedule.
+Print Assumptions C01_only_deadline_errors.
+Print Assumptions C01_only_deadline_errors_schedule.
